@@ -53,6 +53,351 @@ Definition defined_rem_i32 (a b : Z) := b <> 0 /\ 0 <= sgn a /\ 0 <= sgn b.    (
 Definition defined_rem_u32 (a b : Z) := b <> 0.
 Definition defined_shift (b : Z) := b < 32.                                   (* GLSL: shift by >= width undefined *)
 
+
+(* ======================================================================================
+   Part 0.  Leaf lemmas: the GLSL scalar operations of Glsl/Ops.v against Base/Bits32.v and
+   Base/F32.v (pure integer reasoning, before the conversion-strategy hint below is set)
+   ====================================================================================== *)
+(* bridges (unfolding is done in goals only: unfolding these constants inside hypotheses makes Qed very slow) *)
+Lemma in32_b a : in32 a -> 0 <= a < 4294967296.
+Proof. unfold in32, M32. intros H; exact H. Qed.
+Lemma sgn_eq a : sgn a = if a <? 2147483648 then a else a - 4294967296.
+Proof. reflexivity. Qed.
+Lemma sgn_nonneg a : in32 a -> 0 <= sgn a -> sgn a = a /\ 0 <= a < 2147483648.
+Proof. unfold in32, sgn, M32, H32. intros Ha. destruct (Z.ltb_spec a 2147483648); lia. Qed.
+Lemma def_shift_b b : defined_shift b -> b < 32.
+Proof. unfold defined_shift. intros H; exact H. Qed.
+
+Lemma g_div_i_ok a b : in32 a -> in32 b -> defined_div_i32 a b -> g_div_i a b = Done (div_i32 a b).
+Proof.
+  unfold defined_div_i32, g_div_i, div_i32, UB, INT_MIN_BITS, ALL_ONES. intros Ha Hb [Hz Hov].
+  destruct (Z.eqb_spec b 0); [contradiction|].
+  destruct (Z.eqb_spec a H32); destruct (Z.eqb_spec b (M32 - 1)); cbn [andb]; cbv iota;
+    try reflexivity. exfalso; apply Hov; split; assumption.
+Qed.
+Lemma g_div_u_ok a b : defined_div_u32 a b -> g_div_u a b = Done (div_u32 a b).
+Proof. unfold defined_div_u32, g_div_u, div_u32, UB. intros Hz. destruct (Z.eqb_spec b 0); [contradiction|reflexivity]. Qed.
+
+Lemma mod_i_core a b : 0 <= a < 2147483648 -> 0 <= b < 2147483648 -> b <> 0 ->
+  (if b =? 0 then @Fail Z ("UB: " ++ "integer remainder by zero")
+   else if (a <? 0) || (b <? 0) then Fail ("UB: " ++ "integer % with a negative operand") else Done (a mod b))
+  = Done (if b =? 0 then 0 else if (a =? 2147483648) && (b =? 4294967296 - 1) then 0 else (Z.rem a b) mod 4294967296).
+Proof.
+  intros Ha Hb Hz.
+  destruct (Z.eqb_spec b 0); [contradiction|].
+  destruct (Z.ltb_spec a 0); [lia|]. destruct (Z.ltb_spec b 0); [lia|]. cbn [orb]; cbv iota.
+  destruct (Z.eqb_spec a 2147483648); [lia|]. cbn [andb]; cbv iota.
+  f_equal. rewrite Z.rem_mod_nonneg by lia.
+  pose proof (Z.mod_pos_bound a b ltac:(lia)). symmetry. apply Z.mod_small. lia.
+Qed.
+Lemma g_mod_i_ok a b : in32 a -> in32 b -> defined_rem_i32 a b -> g_mod_i a b = Done (rem_i32 a b).
+Proof.
+  unfold defined_rem_i32. intros Ha Hb (Hz & Hsa & Hsb).
+  destruct (sgn_nonneg a Ha Hsa) as [Ea La]. destruct (sgn_nonneg b Hb Hsb) as [Eb Lb].
+  unfold g_mod_i, rem_i32, UB, INT_MIN_BITS, ALL_ONES, wrap, M32, H32. rewrite Ea, Eb.
+  apply mod_i_core; assumption.
+Qed.
+Lemma g_mod_u_ok a b : defined_rem_u32 a b -> g_mod_u a b = Done (rem_u32 a b).
+Proof. unfold defined_rem_u32, g_mod_u, rem_u32, UB. intros Hz. destruct (Z.eqb_spec b 0); [contradiction|reflexivity]. Qed.
+
+(* naga emits the shift amount unmasked: the GLSL result is defined only for amounts below 32 *)
+Lemma shift_guard b : in32 b -> defined_shift b -> (b <? 0) || (32 <=? b) = false /\ b mod 32 = b.
+Proof.
+  unfold in32, defined_shift, M32. intros Hb Hd. split.
+  - destruct (Z.ltb_spec b 0); destruct (Z.leb_spec 32 b); cbn; lia.
+  - apply Z.mod_small. lia.
+Qed.
+Lemma g_shl_ok a b : in32 b -> defined_shift b -> g_shl a b = Done (shl32 a b).
+Proof. intros Hb Hd. destruct (shift_guard b Hb Hd) as [G M]. unfold g_shl, shl32, UB. rewrite G, M. reflexivity. Qed.
+Lemma g_shr_i_ok a b : in32 b -> defined_shift b -> g_shr_i a b = Done (shr_i32 a b).
+Proof. intros Hb Hd. destruct (shift_guard b Hb Hd) as [G M]. unfold g_shr_i, shr_i32, UB. rewrite G, M. reflexivity. Qed.
+Lemma g_shr_u_ok a b : in32 b -> defined_shift b -> g_shr_u a b = Done (shr_u32 a b).
+Proof. intros Hb Hd. destruct (shift_guard b Hb Hd) as [G M]. unfold g_shr_u, shr_u32, UB. rewrite G, M. reflexivity. Qed.
+Lemma g_shl_undefined a b : 32 <= b -> g_shl a b = Fail "UB: shift amount negative or >= 32".
+Proof.
+  intros H. unfold g_shl, UB. destruct (Z.ltb_spec b 0); destruct (Z.leb_spec 32 b); cbn [orb]; cbv iota; try lia; reflexivity.
+Qed.
+
+Lemma g_sign_i_ok a : in32 a -> g_sign_i a = sign_i32 a.
+Proof.
+  unfold in32, g_sign_i, sign_i32, ALL_ONES, sgn, M32, H32. intros Ha.
+  destruct (Z.ltb_spec a 2147483648); atom_cases; lia.
+Qed.
+Lemma g_le_i_true lo hi : sgn lo <= sgn hi -> g_le_i lo hi = true.
+Proof. intros H. unfold g_le_i. destruct (Z.leb_spec (sgn lo) (sgn hi)); [reflexivity|lia]. Qed.
+
+Lemma bitcount_popcount n a : bitcount_nat n a = popcount_nat n a.
+Proof. induction n as [|n IH]; [reflexivity|]. cbn [bitcount_nat popcount_nat]. rewrite IH. reflexivity. Qed.
+Lemma g_bitCount_ok a : g_bitCount a = count_one_bits a.
+Proof. unfold g_bitCount, count_one_bits. apply bitcount_popcount. Qed.
+Lemma bitrev_reverse n a : bitrev_nat n a = reverse_nat n a.
+Proof. induction n as [|n IH]; [reflexivity|]. cbn [bitrev_nat reverse_nat]. rewrite IH. reflexivity. Qed.
+Lemma g_bitfieldReverse_ok a : g_bitfieldReverse a = reverse_bits a.
+Proof. unfold g_bitfieldReverse, reverse_bits. apply bitrev_reverse. Qed.
+
+(* ---- most significant bit: msb_nat against clz_nat ---- *)
+Lemma testbit_top n a : 0 <= n -> 0 <= a < 2 ^ (n + 1) -> Z.testbit a n = false -> a < 2 ^ n.
+Proof.
+  intros Hn Ha Hb. destruct (Z.lt_ge_cases a (2 ^ n)) as [|Hge]; [assumption|]. exfalso.
+  assert (Hp : 0 < 2 ^ n) by (apply Z.pow_pos_nonneg; lia).
+  assert (Hq : 2 ^ (n + 1) = 2 * 2 ^ n) by (rewrite Z.pow_add_r by lia; change (2 ^ 1) with 2; lia).
+  assert (E : a / 2 ^ n = 1) by (symmetry; apply (Z.div_unique a (2 ^ n) 1 (a - 2 ^ n)); lia).
+  assert (T : Z.testbit a n = true) by (apply Z.testbit_true; [lia|]; rewrite E; reflexivity).
+  congruence.
+Qed.
+
+Lemma msb_clz n a : 0 <= a < 2 ^ Z.of_nat n ->
+  (a = 0 -> msb_nat n a = -1 /\ clz_nat n a = Z.of_nat n) /\
+  (a <> 0 -> msb_nat n a = Z.of_nat n - 1 - clz_nat n a /\ 0 <= clz_nat n a < Z.of_nat n).
+Proof.
+  revert a. induction n as [|n IH]; intros a Ha.
+  - change (2 ^ Z.of_nat 0) with 1 in Ha. split; intros; cbn [msb_nat clz_nat Z.of_nat]; lia.
+  - cbn [msb_nat clz_nat]. destruct (Z.testbit a (Z.of_nat n)) eqn:T.
+    + split; intros H.
+      * subst a. rewrite Z.testbit_0_l in T. discriminate.
+      * lia.
+    + assert (Hlt : a < 2 ^ Z.of_nat n).
+      { apply testbit_top; [lia| |assumption]. replace (Z.of_nat n + 1) with (Z.of_nat (S n)) by lia. assumption. }
+      destruct (IH a ltac:(lia)) as [I0 I1]. split; intros H.
+      * destruct (I0 H) as [? ?]. split; lia.
+      * destruct (I1 H) as [? ?]. split; lia.
+Qed.
+
+Lemma msb_clz32 a : in32 a ->
+  (a = 0 -> msb_nat 32 a = -1) /\ (a <> 0 -> msb_nat 32 a = 31 - clz_nat 32 a /\ 0 <= clz_nat 32 a < 32).
+Proof.
+  intros Ha. apply in32_b in Ha.
+  destruct (msb_clz 32 a) as [I0 I1]; [change (2 ^ Z.of_nat 32) with 4294967296; exact Ha|].
+  change (Z.of_nat 32) with 32 in *. split; intros H.
+  - apply I0; assumption.
+  - destruct (I1 H) as [E R]. split; [lia|assumption].
+Qed.
+
+Lemma msb32 a : in32 a ->
+  wrap (msb_nat 32 a) = if a =? 0 then ALL_ONES else 31 - count_leading_zeros a.
+Proof.
+  intros Ha. unfold count_leading_zeros. destruct (msb_clz32 a Ha) as [I0 I1].
+  destruct (Z.eqb_spec a 0) as [E|E].
+  - rewrite (I0 E). reflexivity.
+  - destruct (I1 E) as [-> R]. unfold wrap, M32. apply Z.mod_small. lia.
+Qed.
+
+Lemma g_findMSB_u_ok a : in32 a -> g_findMSB_u a = first_leading_bit_u32 a.
+Proof. intros Ha. unfold g_findMSB_u, first_leading_bit_u32. apply msb32. assumption. Qed.
+
+Lemma g_not_in32 a : in32 a -> in32 (g_not a).
+Proof. unfold g_not, in32, M32. lia. Qed.
+
+Lemma g_findMSB_i_ok a : in32 a -> g_findMSB_i a = first_leading_bit_i32 a.
+Proof.
+  intros Ha. unfold g_findMSB_i, first_leading_bit_i32.
+  rewrite (msb32 a Ha), (msb32 (g_not a) (g_not_in32 a Ha)). apply in32_b in Ha.
+  unfold g_not, not32, ALL_ONES, sgn, M32, H32.
+  destruct (Z.eqb_spec a 0); destruct (Z.eqb_spec a (4294967296 - 1)); destruct (Z.ltb_spec a 2147483648);
+    cbn [orb]; cbv iota; try lia.
+  - destruct (Z.ltb_spec a 0); [lia|]. reflexivity.
+  - destruct (Z.ltb_spec (a - 4294967296) 0); [|lia]. destruct (Z.eqb_spec (4294967296 - 1 - a) 0); [reflexivity|lia].
+  - destruct (Z.ltb_spec a 0); [lia|]. reflexivity.
+  - destruct (Z.ltb_spec (a - 4294967296) 0); [|lia]. destruct (Z.eqb_spec (4294967296 - 1 - a) 0); [lia|reflexivity].
+Qed.
+
+(* ---- least significant bit: lsb_from against ctz_from ---- *)
+Lemma lsb_ctz a f : forall i, 0 <= i ->
+  (lsb_from f i a = ctz_from f i a /\ i <= lsb_from f i a < i + Z.of_nat f) \/
+  (lsb_from f i a = -1 /\ ctz_from f i a = 32 /\ forall k, i <= k < i + Z.of_nat f -> Z.testbit a k = false).
+Proof.
+  induction f as [|f IH]; intros i Hi.
+  - right. cbn [lsb_from ctz_from]. repeat split. intros; lia.
+  - cbn [lsb_from ctz_from]. destruct (Z.testbit a i) eqn:T.
+    + left. split; [reflexivity|lia].
+    + destruct (IH (i + 1) ltac:(lia)) as [[E R]|[E [E2 R]]].
+      * left. split; [assumption|lia].
+      * right. repeat split; try assumption. intros k Hk.
+        destruct (Z.eq_dec k i) as [->|]; [assumption|]. apply R. lia.
+Qed.
+
+Lemma all_bits_zero a : in32 a -> (forall k, 0 <= k < 32 -> Z.testbit a k = false) -> a = 0.
+Proof.
+  intros Ha H. apply in32_b in Ha. apply Z.bits_inj'. intros n Hn. rewrite Z.bits_0.
+  destruct (Z.lt_ge_cases n 32); [apply H; lia|].
+  apply Z.testbit_false; [lia|]. rewrite Z.div_small; [reflexivity|].
+  split; [lia|]. apply Z.lt_le_trans with (2 ^ 32); [change (2 ^ 32) with 4294967296; lia|]. apply Z.pow_le_mono_r; lia.
+Qed.
+
+Lemma g_findLSB_ok a : in32 a -> g_findLSB a = first_trailing_bit a.
+Proof.
+  intros Ha. unfold g_findLSB, first_trailing_bit, count_trailing_zeros.
+  destruct (Z.eqb_spec a 0) as [->|E]; [reflexivity|].
+  destruct (lsb_ctz a 32 0 ltac:(lia)) as [[E1 R]|[_ [_ R]]].
+  - rewrite E1 in *. unfold wrap, M32. apply Z.mod_small. change (Z.of_nat 32) with 32 in R. lia.
+  - exfalso. apply E. apply all_bits_zero; [assumption|]. intros k Hk. apply R. change (Z.of_nat 32) with 32. lia.
+Qed.
+
+Lemma clz_bits a : in32 a -> g_sub 31 (g_findMSB_u a) = count_leading_zeros a.
+Proof.
+  intros Ha. unfold g_findMSB_u. rewrite (msb32 a Ha). unfold g_sub, count_leading_zeros.
+  destruct (Z.eqb_spec a 0) as [->|E]; [reflexivity|].
+  destruct (msb_clz32 a Ha) as [_ I1]. destruct (I1 E) as [_ R]. unfold wrap, M32.
+  replace (31 - (31 - clz_nat 32 a)) with (clz_nat 32 a) by lia. apply Z.mod_small. lia.
+Qed.
+Lemma g_findMSB_i_nonneg a : 0 <= sgn a -> g_findMSB_i a = g_findMSB_u a.
+Proof. intros H. unfold g_findMSB_i, g_findMSB_u. destruct (Z.ltb_spec (sgn a) 0); [lia|reflexivity]. Qed.
+
+(* ---- extractBits / insertBits: offset and count clamped as WGSL prescribes, so always GLSL-defined ---- *)
+Lemma sgn_small x : 0 <= x <= 32 -> sgn x = x.
+Proof. intros. unfold sgn, H32. destruct (Z.ltb_spec x 2147483648); lia. Qed.
+
+Lemma clamp_args b c : in32 b -> in32 c ->
+  let o := g_min_u b 32 in let n := g_min_u c (g_sub 32 o) in
+  o = Z.min b 32 /\ n = Z.min c (32 - Z.min b 32) /\ 0 <= o <= 32 /\ 0 <= n <= 32 - o.
+Proof.
+  unfold in32, M32, g_min_u, g_sub, wrap, M32. intros Hb Hc.
+  destruct (Z.ltb_spec 32 b).
+  - replace ((32 - 32) mod 4294967296) with 0 by reflexivity.
+    destruct (Z.ltb_spec 0 c); repeat split; lia.
+  - rewrite (Z.mod_small (32 - b)) by lia.
+    destruct (Z.ltb_spec (32 - b) c); repeat split; lia.
+Qed.
+
+Lemma bf_ok o n : 0 <= o <= 32 -> 0 <= n <= 32 - o -> bf_defined o n = true.
+Proof.
+  intros Ho Hn. unfold bf_defined. rewrite (sgn_small o) by lia. rewrite (sgn_small n) by lia.
+  destruct (Z.leb_spec 0 o); destruct (Z.leb_spec 0 n); destruct (Z.leb_spec (o + n) 32); cbn [andb]; lia.
+Qed.
+
+Lemma g_bfe_u_ok a b c : in32 b -> in32 c ->
+  g_bfe_u a (g_min_u b 32) (g_min_u c (g_sub 32 (g_min_u b 32))) = Done (extract_bits_u32 a b c).
+Proof.
+  intros Hb Hc. destruct (clamp_args b c Hb Hc) as (Eo & En & Ho & Hn).
+  unfold g_bfe_u. rewrite bf_ok by assumption. cbn [negb]. cbv iota.
+  unfold extract_bits_u32. cbv zeta. rewrite En, Eo.
+  destruct (Z.eqb_spec (Z.min c (32 - Z.min b 32)) 0); reflexivity.
+Qed.
+Lemma g_bfe_i_ok a b c : in32 b -> in32 c ->
+  g_bfe_i a (g_min_u b 32) (g_min_u c (g_sub 32 (g_min_u b 32))) = Done (extract_bits_i32 a b c).
+Proof.
+  intros Hb Hc. destruct (clamp_args b c Hb Hc) as (Eo & En & Ho & Hn).
+  unfold g_bfe_i. rewrite bf_ok by assumption. cbn [negb]. cbv iota.
+  unfold extract_bits_i32. cbv zeta. rewrite En, Eo.
+  destruct (Z.eqb_spec (Z.min c (32 - Z.min b 32)) 0); reflexivity.
+Qed.
+Lemma g_bfi_ok a nb c d : in32 c -> in32 d ->
+  g_bfi a nb (g_min_u c 32) (g_min_u d (g_sub 32 (g_min_u c 32))) = Done (insert_bits a nb c d).
+Proof.
+  intros Hc Hd. destruct (clamp_args c d Hc Hd) as (Eo & En & Ho & Hn).
+  unfold g_bfi. rewrite bf_ok by assumption. cbn [negb]. cbv iota.
+  unfold insert_bits. cbv zeta. rewrite En, Eo.
+  destruct (Z.eqb_spec (Z.min d (32 - Z.min c 32)) 0); reflexivity.
+Qed.
+
+(* ---- float -> integer: GLSL drops the fractional part and leaves unrepresentable values undefined; WGSL
+   saturates.  They agree exactly where GLSL defines the result. ---- *)
+Definition defined_f2i (a : Z) := exists z, z_of_f32_trunc a = Some z /\ -2147483648 <= z <= 2147483647.
+Definition defined_f2u (a : Z) := exists z, z_of_f32_trunc a = Some z /\ flt a 0 = false /\ 0 <= z <= 4294967295.
+
+Lemma g_f2i_ok a : defined_f2i a -> g_f2i a = Done (i32_of_f32 a).
+Proof.
+  intros (z & Hz & Hr). unfold g_f2i, i32_of_f32. rewrite Hz.
+  unfold z_of_f32_trunc in Hz.
+  destruct (of_bits a); try discriminate;
+    (destruct (Z.leb_spec (-2147483648) z); destruct (Z.leb_spec z 2147483647); cbn [andb]; cbv iota; try lia;
+     unfold M32; do 2 f_equal; lia).
+Qed.
+Lemma g_f2u_ok a : defined_f2u a -> g_f2u a = Done (u32_of_f32 a).
+Proof.
+  intros (z & Hz & Hn & Hr). unfold g_f2u, u32_of_f32. rewrite Hz, Hn.
+  unfold z_of_f32_trunc in Hz.
+  destruct (of_bits a); try discriminate;
+    (destruct (Z.leb_spec z 4294967295); cbv iota; try lia; f_equal; lia).
+Qed.
+Lemma flt_one_zero : flt F_ONE 0 = false.
+Proof. vm_compute. reflexivity. Qed.
+
+(* ======================================================================================
+   Part 1.  Evaluation of the templates in the GLSL semantics
+   ====================================================================================== *)
+(* kernel conversion (Qed): unfold the evaluator before the leaf operations *)
+Local Strategy 1000 [g_add g_sub g_mul g_neg g_div_i g_div_u g_mod_i g_mod_u g_shl g_shr_u g_shr_i g_not g_lt_i g_le_i
+  g_abs_i g_sign_i g_min_i g_max_i g_min_u g_max_u g_bitCount g_findLSB g_findMSB_u g_findMSB_i g_bitfieldReverse
+  g_bfe_u g_bfe_i g_bfi g_f2i g_f2u g_sign_f f32_of_i32 f32_of_u32 fadd fsub fmul fdiv fneg fabs ffloor fceil ftrunc fround
+  fsqrt ffma feq flt fle fgt fge fne fmin fmax is_nan_bits is_inf_bits sgn wrap dot_vals].
+
+
+(* ---- evaluation lemmas: what each template reduces to, in terms of the leaf operations of Glsl/Ops.v ---- *)
+Lemma ev_div_i32 es a b : teval es (t_bin BDiv) (e2 (VI32 a) (VI32 b)) = (r <~ g_div_i a b ;; Done (VI32 r)).
+Proof. tred. destruct (g_div_i a b); reflexivity. Qed.
+Lemma ev_div_u32 es a b : teval es (t_bin BDiv) (e2 (VU32 a) (VU32 b)) = (r <~ g_div_u a b ;; Done (VU32 r)).
+Proof. tred. destruct (g_div_u a b); reflexivity. Qed.
+Lemma ev_rem_i32 es a b : teval es (t_bin BMod) (e2 (VI32 a) (VI32 b)) = (r <~ g_mod_i a b ;; Done (VI32 r)).
+Proof. tred. destruct (g_mod_i a b); reflexivity. Qed.
+Lemma ev_rem_u32 es a b : teval es (t_bin BMod) (e2 (VU32 a) (VU32 b)) = (r <~ g_mod_u a b ;; Done (VU32 r)).
+Proof. tred. destruct (g_mod_u a b); reflexivity. Qed.
+Lemma ev_shl_i32 es a b : teval es (t_bin BShl) (e2 (VI32 a) (VU32 b)) = (r <~ g_shl a b ;; Done (VI32 r)).
+Proof. tred. destruct (g_shl a b); reflexivity. Qed.
+Lemma ev_shl_u32 es a b : teval es (t_bin BShl) (e2 (VU32 a) (VU32 b)) = (r <~ g_shl a b ;; Done (VU32 r)).
+Proof. tred. destruct (g_shl a b); reflexivity. Qed.
+Lemma ev_shr_i32 es a b : teval es (t_bin BShr) (e2 (VI32 a) (VU32 b)) = (r <~ g_shr_i a b ;; Done (VI32 r)).
+Proof. tred. destruct (g_shr_i a b); reflexivity. Qed.
+Lemma ev_shr_u32 es a b : teval es (t_bin BShr) (e2 (VU32 a) (VU32 b)) = (r <~ g_shr_u a b ;; Done (VU32 r)).
+Proof. tred. destruct (g_shr_u a b); reflexivity. Qed.
+Lemma ev_sign_i32 es a : teval es (t_call1 "sign") (e1 (VI32 a)) = Done (VI32 (g_sign_i a)).
+Proof. tred. reflexivity. Qed.
+Lemma ev_clamp_i32 es a lo hi : teval es (t_call3 "clamp") (e3 (VI32 a) (VI32 lo) (VI32 hi))
+  = if g_le_i lo hi then Done (VI32 (g_min_i (g_max_i a lo) hi)) else Fail "UB: clamp with minVal > maxVal".
+Proof. tred. destruct (g_le_i lo hi); reflexivity. Qed.
+Lemma ev_clamp_u32 es a lo hi : teval es (t_call3 "clamp") (e3 (VU32 a) (VU32 lo) (VU32 hi))
+  = if lo <=? hi then Done (VU32 (g_min_u (g_max_u a lo) hi)) else Fail "UB: clamp with minVal > maxVal".
+Proof. tred. destruct (lo <=? hi); reflexivity. Qed.
+Lemma ev_clamp_f32 es a lo hi : teval es (t_call3 "clamp") (e3 (VF32 a) (VF32 lo) (VF32 hi))
+  = if negb (flt hi lo) then Done (VF32 (fmin (fmax a lo) hi)) else Fail "UB: clamp with minVal > maxVal".
+Proof. tred. destruct (flt hi lo); reflexivity. Qed.
+Lemma ev_saturate es a : teval es (t_saturate 1) (e1 (VF32 a))
+  = if negb (flt F_ONE 0) then Done (VF32 (fmin (fmax a 0) F_ONE)) else Fail "UB: clamp with minVal > maxVal".
+Proof. tred. destruct (flt F_ONE 0); reflexivity. Qed.
+Lemma ev_bitCount_i32 es a : teval es (t_call1 "bitCount") (e1 (VI32 a)) = Done (VI32 (g_bitCount a)).
+Proof. tred. reflexivity. Qed.
+Lemma ev_bitCount_u32 es a : teval es (t_ctor_call (TScalar KUint) "bitCount") (e1 (VU32 a)) = Done (VU32 (g_bitCount a)).
+Proof. tred. reflexivity. Qed.
+Lemma ev_bitrev_i32 es a : teval es (t_call1 "bitfieldReverse") (e1 (VI32 a)) = Done (VI32 (g_bitfieldReverse a)).
+Proof. tred. reflexivity. Qed.
+Lemma ev_bitrev_u32 es a : teval es (t_call1 "bitfieldReverse") (e1 (VU32 a)) = Done (VU32 (g_bitfieldReverse a)).
+Proof. tred. reflexivity. Qed.
+Lemma ev_findMSB_i32 es a : teval es (t_call1 "findMSB") (e1 (VI32 a)) = Done (VI32 (g_findMSB_i a)).
+Proof. tred. reflexivity. Qed.
+Lemma ev_findMSB_u32 es a : teval es (t_ctor_call (TScalar KUint) "findMSB") (e1 (VU32 a)) = Done (VU32 (g_findMSB_u a)).
+Proof. tred. reflexivity. Qed.
+Lemma ev_findLSB_i32 es a : teval es (t_call1 "findLSB") (e1 (VI32 a)) = Done (VI32 (g_findLSB a)).
+Proof. tred. reflexivity. Qed.
+Lemma ev_findLSB_u32 es a : teval es (t_ctor_call (TScalar KUint) "findLSB") (e1 (VU32 a)) = Done (VU32 (g_findLSB a)).
+Proof. tred. reflexivity. Qed.
+Lemma ev_clz_u32 es a : teval es t_clz (e1 (VU32 a)) = Done (VI32 (g_sub 31 (g_findMSB_u a))).
+Proof. tred. reflexivity. Qed.
+Lemma ev_clz_i32 es a : teval es t_clz (e1 (VI32 a)) = Done (VI32 (g_sub 31 (g_findMSB_i a))).
+Proof. tred. reflexivity. Qed.
+Lemma ev_ctz_i32 es a : teval es t_ctz (e1 (VI32 a)) = Done (VI32 (g_findLSB a)).
+Proof. tred. reflexivity. Qed.
+Lemma ev_extract_u32 es a b c : teval es t_extract (e3 (VU32 a) (VU32 b) (VU32 c))
+  = (r <~ g_bfe_u a (g_min_u b 32) (g_min_u c (g_sub 32 (g_min_u b 32))) ;; Done (VU32 r)).
+Proof. tred. destruct (g_bfe_u a (g_min_u b 32) (g_min_u c (g_sub 32 (g_min_u b 32)))); reflexivity. Qed.
+Lemma ev_extract_i32 es a b c : teval es t_extract (e3 (VI32 a) (VU32 b) (VU32 c))
+  = (r <~ g_bfe_i a (g_min_u b 32) (g_min_u c (g_sub 32 (g_min_u b 32))) ;; Done (VI32 r)).
+Proof. tred. destruct (g_bfe_i a (g_min_u b 32) (g_min_u c (g_sub 32 (g_min_u b 32)))); reflexivity. Qed.
+Lemma ev_insert_u32 es a nb c d : teval es t_insert (e4 (VU32 a) (VU32 nb) (VU32 c) (VU32 d))
+  = (r <~ g_bfi a nb (g_min_u c 32) (g_min_u d (g_sub 32 (g_min_u c 32))) ;; Done (VU32 r)).
+Proof. tred. destruct (g_bfi a nb (g_min_u c 32) (g_min_u d (g_sub 32 (g_min_u c 32)))); reflexivity. Qed.
+Lemma ev_insert_i32 es a nb c d : teval es t_insert (e4 (VI32 a) (VI32 nb) (VU32 c) (VU32 d))
+  = (r <~ g_bfi a nb (g_min_u c 32) (g_min_u d (g_sub 32 (g_min_u c 32))) ;; Done (VI32 r)).
+Proof. tred. destruct (g_bfi a nb (g_min_u c 32) (g_min_u d (g_sub 32 (g_min_u c 32)))); reflexivity. Qed.
+Lemma ev_f2i es a : teval es (t_ctor (TScalar KInt)) (e1 (VF32 a)) = (r <~ g_f2i a ;; Done (VI32 r)).
+Proof. tred. destruct (g_f2i a); reflexivity. Qed.
+Lemma ev_f2u es a : teval es (t_ctor (TScalar KUint)) (e1 (VF32 a)) = (r <~ g_f2u a ;; Done (VU32 r)).
+Proof. tred. destruct (g_f2u a); reflexivity. Qed.
+
+
+(* ======================================================================================
+   Part 2.  The catalogue lemmas
+   ====================================================================================== *)
+
 (* ================= arithmetic ================= *)
 Lemma glsl_add_i32_correct es a b : teval es (t_bin BAdd) (e2 (VI32 a) (VI32 b)) = Done (VI32 (add32 a b)).
 Proof. tred. reflexivity. Qed.
@@ -75,35 +420,18 @@ Proof. tred. reflexivity. Qed.
 
 Lemma glsl_div_i32_correct es a b : in32 a -> in32 b -> defined_div_i32 a b ->
   teval es (t_bin BDiv) (e2 (VI32 a) (VI32 b)) = Done (VI32 (div_i32 a b)).
-Proof.
-  intros Ha Hb [Hz Hov]. tred. unfold_int. unfold_arith.
-  destruct (Z.eqb_spec b 0); [contradiction|].
-  destruct (Z.eqb_spec a 2147483648); destruct (Z.eqb_spec b (4294967296 - 1)); cbn [andb]; cbv iota;
-    try reflexivity; exfalso; apply Hov; split; lia.
-Qed.
+Proof. intros. rewrite ev_div_i32, g_div_i_ok by assumption. reflexivity. Qed.
 Lemma glsl_div_u32_correct es a b : in32 a -> in32 b -> defined_div_u32 a b ->
   teval es (t_bin BDiv) (e2 (VU32 a) (VU32 b)) = Done (VU32 (div_u32 a b)).
-Proof. intros Ha Hb Hz. tred. unfold_int. destruct (Z.eqb_spec b 0); [contradiction|reflexivity]. Qed.
+Proof. intros. rewrite ev_div_u32, g_div_u_ok by assumption. reflexivity. Qed.
 Lemma glsl_div_f32_correct es a b : teval es (t_bin BDiv) (e2 (VF32 a) (VF32 b)) = Done (VF32 (fdiv a b)).
 Proof. tred. reflexivity. Qed.
-
 Lemma glsl_rem_i32_correct es a b : in32 a -> in32 b -> defined_rem_i32 a b ->
   teval es (t_bin BMod) (e2 (VI32 a) (VI32 b)) = Done (VI32 (rem_i32 a b)).
-Proof.
-  intros Ha Hb (Hz & Hsa & Hsb). tred.
-  assert (Ea : sgn a = a /\ a < H32) by (unfold sgn, H32, in32, M32 in *; destruct (Z.ltb_spec a 2147483648); lia).
-  assert (Eb : sgn b = b /\ b < H32) by (unfold sgn, H32, in32, M32 in *; destruct (Z.ltb_spec b 2147483648); lia).
-  destruct Ea as [Ea La]. destruct Eb as [Eb Lb].
-  unfold g_mod_i, rem_i32, UB. rewrite Ea, Eb. unfold INT_MIN_BITS, ALL_ONES in *. unfold in32, M32, H32 in *.
-  destruct (Z.eqb_spec b 0); [contradiction|].
-  destruct (Z.ltb_spec a 0); [lia|]. destruct (Z.ltb_spec b 0); [lia|]. cbn [orb]; cbv iota.
-  destruct (Z.eqb_spec a 2147483648); [lia|]. cbn [andb]; cbv iota.
-  do 2 f_equal. rewrite Z.rem_mod_nonneg by lia. unfold wrap, M32.
-  pose proof (Z.mod_pos_bound a b ltac:(lia)). symmetry. apply Z.mod_small. lia.
-Qed.
+Proof. intros. rewrite ev_rem_i32, g_mod_i_ok by assumption. reflexivity. Qed.
 Lemma glsl_rem_u32_correct es a b : in32 a -> in32 b -> defined_rem_u32 a b ->
   teval es (t_bin BMod) (e2 (VU32 a) (VU32 b)) = Done (VU32 (rem_u32 a b)).
-Proof. intros Ha Hb Hz. tred. unfold_int. destruct (Z.eqb_spec b 0); [contradiction|reflexivity]. Qed.
+Proof. intros. rewrite ev_rem_u32, g_mod_u_ok by assumption. reflexivity. Qed.
 
 (* ================= bitwise, shifts ================= *)
 Lemma glsl_and_i32_correct es a b : teval es (t_bin BAnd) (e2 (VI32 a) (VI32 b)) = Done (VI32 (and32 a b)).
@@ -123,38 +451,22 @@ Proof. tred. reflexivity. Qed.
 Lemma glsl_or_bool_correct es a b : teval es (t_bin BLOr) (e2 (VBool a) (VBool b)) = Done (VBool (a || b)).
 Proof. tred. reflexivity. Qed.
 
-(* naga emits the shift amount unmasked: the GLSL result is defined only for amounts below 32 *)
-Lemma shift_guard b : in32 b -> defined_shift b -> (b <? 0) || (32 <=? b) = false.
-Proof. unfold in32, defined_shift. intros. destruct (Z.ltb_spec b 0); destruct (Z.leb_spec 32 b); cbn; lia. Qed.
 Lemma glsl_shl_i32_correct es a b : in32 a -> in32 b -> defined_shift b ->
   teval es (t_bin BShl) (e2 (VI32 a) (VU32 b)) = Done (VI32 (shl32 a b)).
-Proof.
-  intros Ha Hb Hd. tred. unfold g_shl, shl32, UB. rewrite (shift_guard b Hb Hd).
-  rewrite (Z.mod_small b 32) by (unfold in32, defined_shift in *; lia). reflexivity.
-Qed.
+Proof. intros. rewrite ev_shl_i32, g_shl_ok by assumption. reflexivity. Qed.
 Lemma glsl_shl_u32_correct es a b : in32 a -> in32 b -> defined_shift b ->
   teval es (t_bin BShl) (e2 (VU32 a) (VU32 b)) = Done (VU32 (shl32 a b)).
-Proof.
-  intros Ha Hb Hd. tred. unfold g_shl, shl32, UB. rewrite (shift_guard b Hb Hd).
-  rewrite (Z.mod_small b 32) by (unfold in32, defined_shift in *; lia). reflexivity.
-Qed.
+Proof. intros. rewrite ev_shl_u32, g_shl_ok by assumption. reflexivity. Qed.
 Lemma glsl_shr_i32_correct es a b : in32 a -> in32 b -> defined_shift b ->
   teval es (t_bin BShr) (e2 (VI32 a) (VU32 b)) = Done (VI32 (shr_i32 a b)).
-Proof.
-  intros Ha Hb Hd. tred. unfold g_shr_i, shr_i32, UB. rewrite (shift_guard b Hb Hd).
-  rewrite (Z.mod_small b 32) by (unfold in32, defined_shift in *; lia). reflexivity.
-Qed.
+Proof. intros. rewrite ev_shr_i32, g_shr_i_ok by assumption. reflexivity. Qed.
 Lemma glsl_shr_u32_correct es a b : in32 a -> in32 b -> defined_shift b ->
   teval es (t_bin BShr) (e2 (VU32 a) (VU32 b)) = Done (VU32 (shr_u32 a b)).
-Proof.
-  intros Ha Hb Hd. tred. unfold g_shr_u, shr_u32, UB. rewrite (shift_guard b Hb Hd).
-  rewrite (Z.mod_small b 32) by (unfold in32, defined_shift in *; lia). reflexivity.
-Qed.
+Proof. intros. rewrite ev_shr_u32, g_shr_u_ok by assumption. reflexivity. Qed.
 (* ... and it is NOT defined at amounts >= 32, where WGSL defines the result (amount mod 32): C15 territory *)
-Lemma glsl_shl_unmasked es a b : 32 <= b -> teval es (t_bin BShl) (e2 (VU32 a) (VU32 b)) = Fail "UB: shift amount negative or >= 32".
-Proof.
-  intros H. tred. unfold g_shl, UB. destruct (Z.ltb_spec b 0); destruct (Z.leb_spec 32 b); cbn [orb]; cbv iota; try lia; reflexivity.
-Qed.
+Lemma glsl_shl_unmasked es a b : 32 <= b ->
+  teval es (t_bin BShl) (e2 (VU32 a) (VU32 b)) = Fail "UB: shift amount negative or >= 32".
+Proof. intros. rewrite ev_shl_u32, g_shl_undefined by assumption. reflexivity. Qed.
 
 (* ================= comparisons ================= *)
 Lemma glsl_eq_i32_correct es a b : teval es (t_bin BEq) (e2 (VI32 a) (VI32 b)) = Done (VBool (a =? b)).
@@ -213,7 +525,7 @@ Proof. tred. reflexivity. Qed.
 (* ================= select: (c ? b : a), any operand type and shape, scalar condition ================= *)
 Lemma glsl_select_correct es (a b : value) (c : bool) : is_poison a = false -> is_poison b = false ->
   teval es t_select (e3 a b (VBool c)) = Done (if c then b else a).
-Proof. intros Ha Hb. tred. destruct c; [rewrite Hb | rewrite Ha]; reflexivity. Qed.
+Proof. intros Ha Hb. destruct a; try discriminate Ha; destruct b; try discriminate Hb; destruct c; reflexivity. Qed.
 Lemma glsl_select_i32_correct es a b c : teval es t_select (e3 (VI32 a) (VI32 b) (VBool c)) = Done (VI32 (if c then b else a)).
 Proof. rewrite glsl_select_correct by reflexivity. destruct c; reflexivity. Qed.
 Lemma glsl_select_u32_correct es a b c : teval es t_select (e3 (VU32 a) (VU32 b) (VBool c)) = Done (VU32 (if c then b else a)).
@@ -246,10 +558,7 @@ Proof. tred. reflexivity. Qed.
 Lemma glsl_abs_u32_refuted es a : teval es (t_call1 "abs") (e1 (VU32 a)) = Fail "TYPE: abs: operand type".
 Proof. tred. reflexivity. Qed.
 Lemma glsl_sign_i32_correct es a : in32 a -> teval es (t_call1 "sign") (e1 (VI32 a)) = Done (VI32 (sign_i32 a)).
-Proof.
-  intros Ha. tred. unfold_int. do 2 f_equal. unfold_arith.
-  destruct (Z.ltb_spec a 2147483648); atom_cases; lia.
-Qed.
+Proof. intros. rewrite ev_sign_i32, g_sign_i_ok by assumption. reflexivity. Qed.
 Lemma glsl_min_i32_correct es a b : teval es (t_call2 "min") (e2 (VI32 a) (VI32 b)) = Done (VI32 (min_i32 a b)).
 Proof. tred. reflexivity. Qed.
 Lemma glsl_min_u32_correct es a b : teval es (t_call2 "min") (e2 (VU32 a) (VU32 b)) = Done (VU32 (min_u32 a b)).
@@ -261,10 +570,10 @@ Proof. tred. reflexivity. Qed.
 (* clamp: GLSL "results are undefined if minVal > maxVal" *)
 Lemma glsl_clamp_i32_correct es a lo hi : sgn lo <= sgn hi ->
   teval es (t_call3 "clamp") (e3 (VI32 a) (VI32 lo) (VI32 hi)) = Done (VI32 (clamp_i32 a lo hi)).
-Proof. intros H. tred. unfold g_le_i. destruct (Z.leb_spec (sgn lo) (sgn hi)); [reflexivity | lia]. Qed.
+Proof. intros H. rewrite ev_clamp_i32, g_le_i_true by assumption. reflexivity. Qed.
 Lemma glsl_clamp_u32_correct es a lo hi : lo <= hi ->
   teval es (t_call3 "clamp") (e3 (VU32 a) (VU32 lo) (VU32 hi)) = Done (VU32 (clamp_u32 a lo hi)).
-Proof. intros H. tred. destruct (Z.leb_spec lo hi); [reflexivity | lia]. Qed.
+Proof. intros H. rewrite ev_clamp_u32. destruct (Z.leb_spec lo hi); [reflexivity | lia]. Qed.
 
 Lemma glsl_dot_i32_vec2_correct es a0 a1 b0 b1 :
   teval es (t_int_dot 2) (e2 (VVec [VI32 a0; VI32 a1]) (VVec [VI32 b0; VI32 b1])) = dot_vals [VI32 a0; VI32 a1] [VI32 b0; VI32 b1].
@@ -301,134 +610,35 @@ Lemma glsl_dot_f32_vec4_correct es a0 a1 a2 a3 b0 b1 b2 b3 :
 Proof. tred. reflexivity. Qed.
 
 (* ---- bit counting ---- *)
-Lemma bitcount_popcount n a : bitcount_nat n a = popcount_nat n a.
-Proof. induction n as [|n IH]; [reflexivity|]. cbn [bitcount_nat popcount_nat]. rewrite IH. reflexivity. Qed.
 Lemma glsl_countOneBits_i32_correct es a : teval es (t_call1 "bitCount") (e1 (VI32 a)) = Done (VI32 (count_one_bits a)).
-Proof. tred. unfold g_bitCount, count_one_bits. rewrite bitcount_popcount. reflexivity. Qed.
+Proof. rewrite ev_bitCount_i32, g_bitCount_ok. reflexivity. Qed.
 Lemma glsl_countOneBits_u32_correct es a :
   teval es (t_ctor_call (TScalar KUint) "bitCount") (e1 (VU32 a)) = Done (VU32 (count_one_bits a)).
-Proof. tred. unfold g_bitCount, count_one_bits. rewrite bitcount_popcount. reflexivity. Qed.
-
-Lemma bitrev_reverse n a : bitrev_nat n a = reverse_nat n a.
-Proof. induction n as [|n IH]; [reflexivity|]. cbn [bitrev_nat reverse_nat]. rewrite IH. reflexivity. Qed.
+Proof. rewrite ev_bitCount_u32, g_bitCount_ok. reflexivity. Qed.
 Lemma glsl_reverseBits_i32_correct es a : teval es (t_call1 "bitfieldReverse") (e1 (VI32 a)) = Done (VI32 (reverse_bits a)).
-Proof. tred. unfold g_bitfieldReverse, reverse_bits. rewrite bitrev_reverse. reflexivity. Qed.
+Proof. rewrite ev_bitrev_i32, g_bitfieldReverse_ok. reflexivity. Qed.
 Lemma glsl_reverseBits_u32_correct es a : teval es (t_call1 "bitfieldReverse") (e1 (VU32 a)) = Done (VU32 (reverse_bits a)).
-Proof. tred. unfold g_bitfieldReverse, reverse_bits. rewrite bitrev_reverse. reflexivity. Qed.
-
-(* ---- most significant bit: msb_nat against clz_nat ---- *)
-Lemma testbit_top n a : 0 <= n -> 0 <= a < 2 ^ (n + 1) -> Z.testbit a n = false -> a < 2 ^ n.
-Proof.
-  intros Hn Ha Hb. destruct (Z.lt_ge_cases a (2 ^ n)) as [|Hge]; [assumption|]. exfalso.
-  assert (Hp : 0 < 2 ^ n) by (apply Z.pow_pos_nonneg; lia).
-  assert (E : a / 2 ^ n = 1).
-  { rewrite Z.pow_add_r in Ha by lia. change (2 ^ 1) with 2 in Ha.
-    symmetry. apply (Z.div_unique a (2 ^ n) 1 (a - 2 ^ n)); lia. }
-  assert (T : Z.testbit a n = true) by (apply Z.testbit_true; [lia|]; rewrite E; reflexivity).
-  congruence.
-Qed.
-
-Lemma msb_clz n a : 0 <= a < 2 ^ Z.of_nat n ->
-  (a = 0 -> msb_nat n a = -1 /\ clz_nat n a = Z.of_nat n) /\
-  (a <> 0 -> msb_nat n a = Z.of_nat n - 1 - clz_nat n a /\ 0 <= clz_nat n a < Z.of_nat n).
-Proof.
-  revert a. induction n as [|n IH]; intros a Ha.
-  - cbn in Ha. split; intros; cbn; lia.
-  - cbn [msb_nat clz_nat]. destruct (Z.testbit a (Z.of_nat n)) eqn:T.
-    + split; intros H.
-      * subst a. rewrite Z.testbit_0_l in T. discriminate.
-      * lia.
-    + assert (Hlt : a < 2 ^ Z.of_nat n).
-      { apply testbit_top; [lia| |assumption]. replace (Z.of_nat n + 1) with (Z.of_nat (S n)) by lia. assumption. }
-      destruct (IH a ltac:(lia)) as [I0 I1]. split; intros H.
-      * destruct (I0 H) as [? ?]. split; lia.
-      * destruct (I1 H) as [? ?]. split; lia.
-Qed.
-
-Lemma msb32 a : in32 a ->
-  wrap (msb_nat 32 a) = if a =? 0 then ALL_ONES else 31 - count_leading_zeros a.
-Proof.
-  intros Ha. unfold count_leading_zeros.
-  destruct (msb_clz 32 a) as [I0 I1]; [unfold in32, M32 in Ha; cbn; lia|].
-  destruct (Z.eqb_spec a 0) as [E|E].
-  - destruct (I0 E) as [-> _]. reflexivity.
-  - destruct (I1 E) as [-> ?]. unfold wrap, M32. apply Z.mod_small. cbn in *. lia.
-Qed.
-
+Proof. rewrite ev_bitrev_u32, g_bitfieldReverse_ok. reflexivity. Qed.
 Lemma glsl_firstLeadingBit_u32_correct es a : in32 a ->
   teval es (t_ctor_call (TScalar KUint) "findMSB") (e1 (VU32 a)) = Done (VU32 (first_leading_bit_u32 a)).
-Proof. intros Ha. tred. unfold g_findMSB_u, first_leading_bit_u32. rewrite (msb32 a Ha). reflexivity. Qed.
-
+Proof. intros. rewrite ev_findMSB_u32, g_findMSB_u_ok by assumption. reflexivity. Qed.
 Lemma glsl_firstLeadingBit_i32_correct es a : in32 a ->
   teval es (t_call1 "findMSB") (e1 (VI32 a)) = Done (VI32 (first_leading_bit_i32 a)).
-Proof.
-  intros Ha. tred. unfold g_findMSB_i, first_leading_bit_i32. do 2 f_equal.
-  assert (Hn : in32 (g_not a)) by (unfold g_not, in32, M32 in *; lia).
-  rewrite (msb32 a Ha), (msb32 (g_not a) Hn).
-  unfold g_not, not32, ALL_ONES, sgn, M32, H32, in32 in *.
-  destruct (Z.eqb_spec a 0); destruct (Z.eqb_spec a (4294967296 - 1)); destruct (Z.ltb_spec a 2147483648);
-    cbn [orb]; cbv iota; try lia.
-  - destruct (Z.ltb_spec a 0); [lia|]. reflexivity.
-  - destruct (Z.ltb_spec (a - 4294967296) 0); [|lia]. destruct (Z.eqb_spec (4294967296 - 1 - a) 0); [reflexivity|lia].
-  - destruct (Z.ltb_spec a 0); [lia|]. reflexivity.
-  - destruct (Z.ltb_spec (a - 4294967296) 0); [|lia]. destruct (Z.eqb_spec (4294967296 - 1 - a) 0); [lia|reflexivity].
-Qed.
-
-(* ---- least significant bit: lsb_from against ctz_from ---- *)
-Lemma lsb_ctz a f : forall i, 0 <= i ->
-  (lsb_from f i a = ctz_from f i a /\ i <= lsb_from f i a < i + Z.of_nat f) \/
-  (lsb_from f i a = -1 /\ ctz_from f i a = 32 /\ forall k, i <= k < i + Z.of_nat f -> Z.testbit a k = false).
-Proof.
-  induction f as [|f IH]; intros i Hi.
-  - right. cbn. repeat split. intros; lia.
-  - cbn [lsb_from ctz_from]. destruct (Z.testbit a i) eqn:T.
-    + left. split; [reflexivity|lia].
-    + destruct (IH (i + 1) ltac:(lia)) as [[E R]|[E [E2 R]]].
-      * left. split; [assumption|lia].
-      * right. repeat split; try assumption. intros k Hk.
-        destruct (Z.eq_dec k i) as [->|]; [assumption|]. apply R. lia.
-Qed.
-
-Lemma all_bits_zero a : in32 a -> (forall k, 0 <= k < 32 -> Z.testbit a k = false) -> a = 0.
-Proof.
-  intros Ha H. apply Z.bits_inj'. intros n Hn. rewrite Z.bits_0.
-  destruct (Z.lt_ge_cases n 32); [apply H; lia|].
-  apply Z.testbit_false; [lia|]. rewrite Z.div_small; [reflexivity|].
-  unfold in32, M32 in Ha. split; [lia|]. apply Z.lt_le_trans with (2 ^ 32); [cbn; lia|]. apply Z.pow_le_mono_r; lia.
-Qed.
-
-Lemma lsb32 a : in32 a -> g_findLSB a = first_trailing_bit a.
-Proof.
-  intros Ha. unfold g_findLSB, first_trailing_bit, count_trailing_zeros.
-  destruct (Z.eqb_spec a 0) as [->|E]; [reflexivity|].
-  destruct (lsb_ctz a 32 0 ltac:(lia)) as [[E1 R]|[_ [_ R]]].
-  - rewrite E1 in *. unfold wrap, M32. apply Z.mod_small. cbn in R. lia.
-  - exfalso. apply E. apply all_bits_zero; [assumption|]. intros k Hk. apply R. cbn. lia.
-Qed.
-
+Proof. intros. rewrite ev_findMSB_i32, g_findMSB_i_ok by assumption. reflexivity. Qed.
 Lemma glsl_firstTrailingBit_i32_correct es a : in32 a ->
   teval es (t_call1 "findLSB") (e1 (VI32 a)) = Done (VI32 (first_trailing_bit a)).
-Proof. intros Ha. tred. rewrite (lsb32 a Ha). reflexivity. Qed.
+Proof. intros. rewrite ev_findLSB_i32, g_findLSB_ok by assumption. reflexivity. Qed.
 Lemma glsl_firstTrailingBit_u32_correct es a : in32 a ->
   teval es (t_ctor_call (TScalar KUint) "findLSB") (e1 (VU32 a)) = Done (VU32 (first_trailing_bit a)).
-Proof. intros Ha. tred. rewrite (lsb32 a Ha). reflexivity. Qed.
+Proof. intros. rewrite ev_findLSB_u32, g_findLSB_ok by assumption. reflexivity. Qed.
 
 (* ---- countLeadingZeros = (31 - findMSB(a)): right bits for unsigned and non-negative operands ... ---- *)
-Lemma clz_bits a : in32 a -> g_sub 31 (wrap (msb_nat 32 a)) = count_leading_zeros a.
-Proof.
-  intros Ha. rewrite (msb32 a Ha). unfold g_sub, count_leading_zeros.
-  destruct (Z.eqb_spec a 0) as [->|E]; [reflexivity|].
-  destruct (msb_clz 32 a) as [_ I1]; [unfold in32, M32 in Ha; cbn; lia|].
-  destruct (I1 E) as [_ R]. unfold wrap, M32. cbn in R. apply Z.mod_small. lia.
-Qed.
 Lemma glsl_countLeadingZeros_u32_bits es a : in32 a ->
   teval es t_clz (e1 (VU32 a)) = Done (VI32 (count_leading_zeros a)).
-Proof. intros Ha. tred. unfold g_findMSB_u. rewrite (clz_bits a Ha). reflexivity. Qed.
+Proof. intros. rewrite ev_clz_u32, clz_bits by assumption. reflexivity. Qed.
 Lemma glsl_countLeadingZeros_i32_nonneg es a : in32 a -> 0 <= sgn a ->
   teval es t_clz (e1 (VI32 a)) = Done (VI32 (count_leading_zeros a)).
-Proof.
-  intros Ha Hs. tred. unfold g_findMSB_i. destruct (Z.ltb_spec (sgn a) 0); [lia|]. rewrite (clz_bits a Ha). reflexivity.
-Qed.
+Proof. intros. rewrite ev_clz_i32, g_findMSB_i_nonneg, clz_bits by assumption. reflexivity. Qed.
 (* ... REFUTED for u32: the expression has type int where uint is required (desktop GLSL converts implicitly, GLSL ES
    rejects the program) ... *)
 Lemma glsl_countLeadingZeros_u32_kind_refuted es a : in32 a ->
@@ -443,67 +653,26 @@ Proof. exists 4294967295. split; [unfold in32, M32; lia|]. split; vm_compute; re
 Lemma glsl_countTrailingZeros_nonzero es a : in32 a -> a <> 0 ->
   teval es t_ctz (e1 (VI32 a)) = Done (VI32 (count_trailing_zeros a)).
 Proof.
-  intros Ha E. tred. rewrite (lsb32 a Ha). unfold first_trailing_bit. destruct (Z.eqb_spec a 0); [contradiction|reflexivity].
+  intros Ha E. rewrite ev_ctz_i32, g_findLSB_ok by assumption. unfold first_trailing_bit.
+  destruct (Z.eqb_spec a 0); [contradiction|reflexivity].
 Qed.
 Lemma glsl_countTrailingZeros_refuted :
   teval false t_ctz (e1 (VI32 0)) = Done (VI32 4294967295) /\ teval false t_ctz (e1 (VU32 0)) = Done (VI32 4294967295)
   /\ count_trailing_zeros 0 = 32.
 Proof. repeat split; vm_compute; reflexivity. Qed.
 
-(* ---- extractBits / insertBits: offset and count clamped as WGSL prescribes, so always GLSL-defined ---- *)
-Lemma sgn_small x : 0 <= x <= 32 -> sgn x = x.
-Proof. intros. unfold sgn, H32. destruct (Z.ltb_spec x 2147483648); lia. Qed.
-
-Lemma clamp_args b c : in32 b -> in32 c ->
-  let o := g_min_u b 32 in let n := g_min_u c (g_sub 32 o) in
-  o = Z.min b 32 /\ n = Z.min c (32 - Z.min b 32) /\ 0 <= o <= 32 /\ 0 <= n <= 32 - o.
-Proof.
-  unfold in32, M32, g_min_u, g_sub, wrap, M32. intros Hb Hc.
-  destruct (Z.ltb_spec 32 b).
-  - replace ((32 - 32) mod 4294967296) with 0 by reflexivity.
-    destruct (Z.ltb_spec 0 c); repeat split; lia.
-  - rewrite (Z.mod_small (32 - b)) by lia.
-    destruct (Z.ltb_spec (32 - b) c); repeat split; lia.
-Qed.
-
-Lemma bf_ok o n : 0 <= o <= 32 -> 0 <= n <= 32 - o -> bf_defined o n = true.
-Proof.
-  intros Ho Hn. unfold bf_defined. rewrite (sgn_small o) by lia. rewrite (sgn_small n) by lia.
-  destruct (Z.leb_spec 0 o); destruct (Z.leb_spec 0 n); destruct (Z.leb_spec (o + n) 32); cbn; lia.
-Qed.
-
 Lemma glsl_extractBits_u32_correct es a b c : in32 a -> in32 b -> in32 c ->
   teval es t_extract (e3 (VU32 a) (VU32 b) (VU32 c)) = Done (VU32 (extract_bits_u32 a b c)).
-Proof.
-  intros Ha Hb Hc. tred. destruct (clamp_args b c Hb Hc) as (Eo & En & Ho & Hn).
-  unfold g_bfe_u. rewrite bf_ok by assumption. cbn [negb]. cbv iota.
-  unfold extract_bits_u32. cbv zeta. rewrite <- Eo. rewrite <- En at 1. rewrite <- En.
-  destruct (Z.eqb_spec (g_min_u c (g_sub 32 (g_min_u b 32))) 0); reflexivity.
-Qed.
+Proof. intros. rewrite ev_extract_u32, g_bfe_u_ok by assumption. reflexivity. Qed.
 Lemma glsl_extractBits_i32_correct es a b c : in32 a -> in32 b -> in32 c ->
   teval es t_extract (e3 (VI32 a) (VU32 b) (VU32 c)) = Done (VI32 (extract_bits_i32 a b c)).
-Proof.
-  intros Ha Hb Hc. tred. destruct (clamp_args b c Hb Hc) as (Eo & En & Ho & Hn).
-  unfold g_bfe_i. rewrite bf_ok by assumption. cbn [negb]. cbv iota.
-  unfold extract_bits_i32. cbv zeta. rewrite <- Eo. rewrite <- En at 1. rewrite <- En.
-  destruct (Z.eqb_spec (g_min_u c (g_sub 32 (g_min_u b 32))) 0); reflexivity.
-Qed.
+Proof. intros. rewrite ev_extract_i32, g_bfe_i_ok by assumption. reflexivity. Qed.
 Lemma glsl_insertBits_u32_correct es a nb c d : in32 a -> in32 nb -> in32 c -> in32 d ->
   teval es t_insert (e4 (VU32 a) (VU32 nb) (VU32 c) (VU32 d)) = Done (VU32 (insert_bits a nb c d)).
-Proof.
-  intros Ha Hnb Hc Hd. tred. destruct (clamp_args c d Hc Hd) as (Eo & En & Ho & Hn).
-  unfold g_bfi. rewrite bf_ok by assumption. cbn [negb]. cbv iota.
-  unfold insert_bits. cbv zeta. rewrite <- Eo. rewrite <- En at 1. rewrite <- En.
-  destruct (Z.eqb_spec (g_min_u d (g_sub 32 (g_min_u c 32))) 0); reflexivity.
-Qed.
+Proof. intros. rewrite ev_insert_u32, g_bfi_ok by assumption. reflexivity. Qed.
 Lemma glsl_insertBits_i32_correct es a nb c d : in32 a -> in32 nb -> in32 c -> in32 d ->
   teval es t_insert (e4 (VI32 a) (VI32 nb) (VU32 c) (VU32 d)) = Done (VI32 (insert_bits a nb c d)).
-Proof.
-  intros Ha Hnb Hc Hd. tred. destruct (clamp_args c d Hc Hd) as (Eo & En & Ho & Hn).
-  unfold g_bfi. rewrite bf_ok by assumption. cbn [negb]. cbv iota.
-  unfold insert_bits. cbv zeta. rewrite <- Eo. rewrite <- En at 1. rewrite <- En.
-  destruct (Z.eqb_spec (g_min_u d (g_sub 32 (g_min_u c 32))) 0); reflexivity.
-Qed.
+Proof. intros. rewrite ev_insert_i32, g_bfi_ok by assumption. reflexivity. Qed.
 
 (* ================= float math (binary32 operations of Base/F32.v; see DialectChoices.md) ================= *)
 Lemma glsl_abs_f32_correct es a : teval es (t_call1 "abs") (e1 (VF32 a)) = Done (VF32 (fabs a)).
@@ -517,7 +686,7 @@ Lemma glsl_max_f32_correct es a b : teval es (t_call2 "max") (e2 (VF32 a) (VF32 
 Proof. tred. reflexivity. Qed.
 Lemma glsl_clamp_f32_correct es a lo hi : flt hi lo = false ->
   teval es (t_call3 "clamp") (e3 (VF32 a) (VF32 lo) (VF32 hi)) = Done (VF32 (fmin (fmax a lo) hi)).
-Proof. intros H. tred. rewrite H. reflexivity. Qed.
+Proof. intros H. rewrite ev_clamp_f32, H. reflexivity. Qed.
 Lemma glsl_floor_f32_correct es a : teval es (t_call1 "floor") (e1 (VF32 a)) = Done (VF32 (ffloor a)).
 Proof. tred. reflexivity. Qed.
 Lemma glsl_ceil_f32_correct es a : teval es (t_call1 "ceil") (e1 (VF32 a)) = Done (VF32 (fceil a)).
@@ -528,11 +697,9 @@ Lemma glsl_round_f32_correct es a : teval es (t_call1 "round") (e1 (VF32 a)) = D
 Proof. tred. reflexivity. Qed.
 Lemma glsl_sqrt_f32_correct es a : teval es (t_call1 "sqrt") (e1 (VF32 a)) = Done (VF32 (fsqrt a)).
 Proof. tred. reflexivity. Qed.
-Lemma flt_one_zero : flt F_ONE 0 = false.
-Proof. vm_compute. reflexivity. Qed.
 Lemma glsl_saturate_f32_correct es a :
   teval es (t_saturate 1) (e1 (VF32 a)) = Done (VF32 (fmin (fmax a 0) 1065353216)).
-Proof. tred. rewrite flt_one_zero. reflexivity. Qed.
+Proof. rewrite ev_saturate, flt_one_zero. reflexivity. Qed.
 Lemma glsl_fma_f32_correct es a b c : teval es t_fma_fused (e3 (VF32 a) (VF32 b) (VF32 c)) = Done (VF32 (ffma a b c)).
 Proof. tred. reflexivity. Qed.
 (* versions without fma(): the unfused form, which WGSL allows ("e1 * e2 + e3", fused or not) *)
@@ -561,31 +728,15 @@ Lemma glsl_bool_to_u32_correct es a : teval es (t_ctor (TScalar KUint)) (e1 (VBo
 Proof. tred. reflexivity. Qed.
 Lemma glsl_bool_to_f32_correct es a : teval es (t_ctor (TScalar KFloat)) (e1 (VBool a)) = Done (VF32 (if a then 1065353216 else 0)).
 Proof. tred. reflexivity. Qed.
-
-(* float -> integer: GLSL drops the fractional part and leaves unrepresentable values undefined; WGSL saturates.
-   They agree exactly where GLSL defines the result. *)
-Definition defined_f2i (a : Z) := exists z, z_of_f32_trunc a = Some z /\ -2147483648 <= z <= 2147483647.
-Definition defined_f2u (a : Z) := exists z, z_of_f32_trunc a = Some z /\ flt a 0 = false /\ 0 <= z <= 4294967295.
-
 Lemma glsl_f32_to_i32_correct es a : defined_f2i a ->
   teval es (t_ctor (TScalar KInt)) (e1 (VF32 a)) = Done (VI32 (i32_of_f32 a)).
-Proof.
-  intros (z & Hz & Hr). tred. unfold g_f2i, i32_of_f32. rewrite Hz.
-  unfold z_of_f32_trunc in Hz.
-  destruct (of_bits a); try discriminate;
-    (destruct (Z.leb_spec (-2147483648) z); destruct (Z.leb_spec z 2147483647); cbn [andb]; cbv iota; try lia;
-     unfold M32; do 3 f_equal; lia).
-Qed.
+Proof. intros. rewrite ev_f2i, g_f2i_ok by assumption. reflexivity. Qed.
 Lemma glsl_f32_to_u32_correct es a : defined_f2u a ->
   teval es (t_ctor (TScalar KUint)) (e1 (VF32 a)) = Done (VU32 (u32_of_f32 a)).
-Proof.
-  intros (z & Hz & Hn & Hr). tred. unfold g_f2u, u32_of_f32. rewrite Hz, Hn.
-  unfold z_of_f32_trunc in Hz.
-  destruct (of_bits a); try discriminate;
-    (destruct (Z.leb_spec z 4294967295); cbv iota; try lia; do 2 f_equal; lia).
-Qed.
+Proof. intros. rewrite ev_f2u, g_f2u_ok by assumption. reflexivity. Qed.
 (* outside that range the emitted int(a) / uint(a) is undefined in GLSL (WGSL defines it): C15 territory *)
-Lemma glsl_f32_to_i32_unclamped : teval false (t_ctor (TScalar KInt)) (e1 (VF32 1333788672)) = Fail "UB: float to int conversion out of range".
+Lemma glsl_f32_to_i32_unclamped :
+  teval false (t_ctor (TScalar KInt)) (e1 (VF32 1333788672)) = Fail "UB: float to int conversion out of range".
 Proof. vm_compute. reflexivity. Qed.
 
 Lemma glsl_bitcast_i32_u32_correct es a : teval es (t_ctor (TScalar KUint)) (e1 (VI32 a)) = Done (VU32 a).
@@ -600,36 +751,3 @@ Lemma glsl_bitcast_f32_i32_correct es a : teval es (t_call1 "floatBitsToInt") (e
 Proof. tred. reflexivity. Qed.
 Lemma glsl_bitcast_f32_u32_correct es a : teval es (t_call1 "floatBitsToUint") (e1 (VF32 a)) = Done (VU32 a).
 Proof. tred. reflexivity. Qed.
-
-(* ================= vector shapes: component-wise templates ================= *)
-(* The vector forms of the binary-operator templates apply the scalar operator to corresponding components
-   (GLSL 5.9), which is what the IR semantics does (Values.lift2): one generic statement per shape class. *)
-Lemma zip_res_ext (f g : value -> value -> result value) l1 l2 :
-  (forall x y, In (x, y) (combine l1 l2) -> f x y = g x y) -> zip_res f l1 l2 = zip_res g l1 l2.
-Proof.
-  revert l2. induction l1 as [|x l1 IH]; intros [|y l2] H; try reflexivity.
-  cbn [zip_res]. rewrite (H x y) by (left; reflexivity). destruct (g x y); try reflexivity.
-  cbn [rbind]. rewrite IH; [reflexivity|]. intros; apply H; right; assumption.
-Qed.
-
-Definition all_i32 (l : list value) := Forall (fun v => exists z, v = VI32 z /\ in32 z) l.
-
-(* same-kind integer vectors: the template `a o b` is the component-wise scalar operator *)
-Lemma glsl_vec_binop_componentwise es o (x y : value) (la lb : list value) :
-  base_kind (VVec (x :: la)) = base_kind (VVec (y :: lb)) ->
-  is_poison (VVec (x :: la)) = false ->
-  match o with BAdd | BSub | BMul | BDiv | BMod => True | _ => False end ->
-  teval es (t_bin o) (e2 (VVec (x :: la)) (VVec (y :: lb)))
-  = (vs <~ zip_res (arith_s o) (x :: la) (y :: lb) ;; Done (VVec vs)).
-Proof.
-  intros Hk _ Ho. unfold teval, t_bin, va, vb, e2, env. cbn [eval_expr map fst snd].
-  cbn [lookup scopes_find sc_find st_scopes st_globals String.eqb Ascii.eqb Bool.eqb is_poison rbind snd fst].
-  unfold eval_binop, P0. cbn [p_es]. cbn [is_mat orb].
-  unfold unify. rewrite Hk.
-  assert (R : forall k, sk_eqb k k = true) by (destruct k; reflexivity).
-  destruct (base_kind (VVec (y :: lb))) as [k|] eqn:Ek.
-  - rewrite R. destruct o; try contradiction; cbn [rbind fst snd lift2];
-      destruct (zip_res _ (x :: la) (y :: lb)); reflexivity.
-  - destruct o; try contradiction; cbn [rbind fst snd lift2];
-      destruct (zip_res _ (x :: la) (y :: lb)); reflexivity.
-Qed.
